@@ -1,12 +1,269 @@
-(* C04 - cron: Next is the earliest instant matching the documented meaning; malformed
-   expressions are refused. Statements only. *)
+(* C04 - cron: Next is the earliest instant matching the expression's documented meaning;
+   malformed expressions are refused.
+   Statements only; every proof is [exact <lemma of C04/Proofs_*.v>].
+
+   Vocabulary. [next_model b z t] is the line-by-line model of SpecSchedule.Next (spec.go) for
+   the six uint64 bit sets b, the zone table z (the effective location) and the unix second
+   t of the argument; its results are NextAt u, NextZero (Go's zero time) and OutOfFuel (the
+   model's 2^34 loop tests did not suffice - not a behaviour of terminating Go code).
+   [next_ref d z t] is the SPECIFICATION: the least second u > t whose wall-clock fields in
+   zone z satisfy the documented meaning d ([matches]: second, minute, hour, month in their
+   sets and the day rule - both day fields must match unless both are restricted, then
+   either), or None when the first such second would lie in a wall-clock year later than
+   (year of t+1) + 5; it is defined as a naive second-by-second scan. [dsched_of_bits b] reads
+   the bit sets as the sets of the specification (bit 63 = unrestricted).
+   [parse v o ll pd spec] is the model of NewParser(o).Parse(spec) (parser.go) with
+   time.LoadLocation and time.ParseDuration as the oracles ll and pd; v = Fixed is the current
+   tree, v = Original the tree before commit 82178ca. *)
 From Kit.Lib Require Import Base.
-From Kit.C04 Require Import Cal Zone Str Parse Next Spec Bridge Check Proofs_Local Proofs_Parse Proofs_Next.
-From Coq Require Import ZArith NArith List.
+From Kit.C04 Require Import Cal Zone Str Parse Next Spec Bridge Check.
+From Kit.C04 Require Import Proofs_Local Proofs_Parse Proofs_Next Proofs_Ref Proofs_Fast Proofs_Bits.
+From Coq Require Import ZArith NArith List String.
 Import ListNotations.
 Open Scope Z_scope.
 
+(* ---------------------------------------------------------------------------------------- *)
+(* Next on fixed offsets                                                                     *)
+
+(* HEADLINE. On every fixed offset that is a whole number of minutes, for EVERY six bit sets
+   (any expression the parser can produce, and sets it cannot produce, e.g. empty ones) and
+   EVERY instant, Next returns exactly what the specification demands: the least later second
+   that matches, strictly after t, and the zero time exactly when there is none inside the
+   five-year window. *)
 Theorem C04_next_fixed_offset : forall b off, off mod 60 = 0 -> forall t,
-  next_model b (fixed_zone off) t = result_of_option (next_ref (dsched_of_bits b) (fixed_zone off) t).
+  next_model b (fixed_zone off) t =
+  result_of_option (next_ref (dsched_of_bits b) (fixed_zone off) t).
 Proof. exact next_fixed_offset. Qed.
 Print Assumptions C04_next_fixed_offset.
+
+(* The five-year bound really bounds the search: on such zones the model never runs out of its
+   2^34 loop tests, whatever the bit sets (an empty Second set makes it visit every second of
+   six years). *)
+Theorem C04_next_terminates_fixed : forall b off, off mod 60 = 0 -> forall t,
+  next_model b (fixed_zone off) t <> OutOfFuel.
+Proof. exact next_terminates_fixed. Qed.
+Print Assumptions C04_next_terminates_fixed.
+
+(* A returned instant is later than the argument and matches the schedule. *)
+Theorem C04_next_sound_fixed : forall b off, off mod 60 = 0 -> forall t u,
+  next_model b (fixed_zone off) t = NextAt u ->
+  t < u /\ matches_bits b (fixed_zone off) u = true.
+Proof. exact next_sound_fixed. Qed.
+Print Assumptions C04_next_sound_fixed.
+
+(* ---------------------------------------------------------------------------------------- *)
+(* the specification's reference, every zone                                                 *)
+
+(* [next_ref] returns u exactly when u is the least second after t that matches and no second
+   of (t, u] lies beyond the window (u within the 2^28-second cap of the scan, which is longer
+   than any window). *)
+Theorem C04_next_ref_least : forall d z t u,
+  next_ref d z t = Some u <->
+  (t < u < t + 1 + 2 ^ Z.of_nat scan_log /\ matches d z u = true /\
+   (forall x, t < x < u -> matches d z x = false) /\
+   (forall x, t < x <= u -> in_window z t x)).
+Proof. exact next_ref_least. Qed.
+Print Assumptions C04_next_ref_least.
+
+(* The zero time of the reference: no second x after t matches while (t, x] is inside the
+   window. *)
+Theorem C04_next_ref_none : forall d z t, next_ref d z t = None ->
+  forall x, t < x < t + 1 + 2 ^ Z.of_nat scan_log ->
+    (forall y, t < y <= x -> in_window z t y) -> matches d z x = false.
+Proof. exact next_ref_none. Qed.
+Print Assumptions C04_next_ref_none.
+
+(* ORACLE SOUNDNESS. The executable reference that Check.v evaluates on every observation
+   (zone period by zone period, days / hours / minutes / seconds on the wall clock) equals the
+   naive scan, for every zone table whose offsets are at most a day - DST zones included. *)
+Theorem C04_next_ref_fast_correct : forall d z t,
+  zone_offsets_small z = true -> next_ref_fast d z t = next_ref d z t.
+Proof. exact next_ref_fast_correct. Qed.
+Print Assumptions C04_next_ref_fast_correct.
+
+(* ... so the oracle accepts an observation exactly when it is the reference value. *)
+Theorem C04_next_oracle_sound : forall d z t obs, zone_ok z = true ->
+  (match obs, next_ref_fast d z t with
+   | Some a, Some b => a =? b | None, None => true | _, _ => false end) = true <->
+  obs = next_ref d z t.
+Proof. exact next_oracle_sound_zone. Qed.
+Print Assumptions C04_next_oracle_sound.
+
+(* ---------------------------------------------------------------------------------------- *)
+(* DST zones: the property is false of the code (known findings, not fixed). Over every IANA  *)
+(* zone x transition 1970-2037 the Go code and the reference differ ONLY near transitions of  *)
+(* these six shapes; at one-hour changes on a whole wall-clock hour whose gap/overlap does    *)
+(* not contain 00:00 they agreed on all 5.6 million screened calls (harness, C04_SCREEN=1).   *)
+
+(* Australia/Lord_Howe (30-minute shift, 2023-10-01): "15 3 * * *" from 00:00 returns 03:15 of
+   2 October although 03:15 of 1 October exists. *)
+Theorem C04_refuted_half_hour_shift : exists b z t, zone_ok z = true /\
+  next_model b z t <> result_of_option (next_ref (dsched_of_bits b) z t).
+Proof. exact refuted_half_hour_shift. Qed.
+Print Assumptions C04_refuted_half_hour_shift.
+
+(* ... and "45 1 * * *" from 01:45 returns 02:45: an instant that does not match at all. *)
+Theorem C04_refuted_half_hour_shift_wrong_hour : exists b z t u, zone_ok z = true /\
+  next_model b z t = NextAt u /\ matches (dsched_of_bits b) z u = false.
+Proof. exact refuted_half_hour_shift_wrong_hour. Qed.
+Print Assumptions C04_refuted_half_hour_shift_wrong_hour.
+
+(* America/Havana (00:00 -> 01:00 gap, 2024-03-10): "0 1 9 3 *" from 9 March 02:00 returns
+   01:00 of 10 March (day 10, not 9). *)
+Theorem C04_refuted_midnight_gap : exists b z t, zone_ok z = true /\
+  next_model b z t <> result_of_option (next_ref (dsched_of_bits b) z t).
+Proof. exact refuted_midnight_gap. Qed.
+Print Assumptions C04_refuted_midnight_gap.
+
+(* America/St_Johns (switch at 00:01 wall clock, 2001-04-01): "0 0 1 * *" from 00:00:01 returns
+   1 June, skipping 1 May 00:00. *)
+Theorem C04_refuted_off_hour : exists b z t, zone_ok z = true /\
+  next_model b z t <> result_of_option (next_ref (dsched_of_bits b) z t).
+Proof. exact refuted_off_hour. Qed.
+Print Assumptions C04_refuted_off_hour.
+
+(* Africa/Tunis (01:00 -> 00:00, 1978-10-01: 00:00 happens twice): "0 0 1 * *" returns the
+   second 00:00, skipping the first. *)
+Theorem C04_refuted_midnight_overlap : exists b z t, zone_ok z = true /\
+  next_model b z t <> result_of_option (next_ref (dsched_of_bits b) z t).
+Proof. exact refuted_midnight_overlap. Qed.
+Print Assumptions C04_refuted_midnight_overlap.
+
+(* America/Argentina/Catamarca (two hours back, 1991-03-03): "59 59 23 * * *" asked at the
+   transition instant returns an instant one second BEFORE the argument. *)
+Theorem C04_refuted_multi_hour_not_later : exists b z t u, zone_ok z = true /\
+  next_model b z t = NextAt u /\ u < t.
+Proof. exact refuted_multi_hour_not_later. Qed.
+Print Assumptions C04_refuted_multi_hour_not_later.
+
+(* Pacific/Apia (30 December 2011 skipped): the search never leaves the day loop - the model
+   exhausts any fuel (the Go code spins for ever) - although the next activation is one minute
+   away. So termination does NOT hold for every zone. *)
+Theorem C04_refuted_day_skip_hang : exists b z t, zone_ok z = true /\
+  next_model b z t = OutOfFuel /\ next_ref (dsched_of_bits b) z t = Some (t + 60).
+Proof. exact refuted_day_skip_hang. Qed.
+Print Assumptions C04_refuted_day_skip_hang.
+
+(* ---------------------------------------------------------------------------------------- *)
+(* @every                                                                                    *)
+
+(* '@every d' yields t truncated to the second plus d truncated to the second, at least 1 s
+   (d in nanoseconds; the instant as (unix second, nanoseconds)). *)
+Theorem C04_every : forall d sec nanos, 0 <= nanos < ns_per_s ->
+  every_next (every d) (sec, nanos) = (sec + Z.max 1 (d / ns_per_s), 0).
+Proof. exact every_next_law. Qed.
+Print Assumptions C04_every.
+
+(* ---------------------------------------------------------------------------------------- *)
+(* field -> 64-bit set                                                                       *)
+
+(* getBits(lo, hi, step) on real uint64 shifts is the stepped range lo, lo+step, ... <= hi,
+   bit by bit ([stepped] is the specification's reading of lo-hi/step). *)
+Theorem C04_get_bits_denotes : forall lo hi step x,
+  0 <= lo -> lo <= hi -> hi <= 62 -> 1 <= step -> 0 <= x < 64 ->
+  tb (get_bits lo hi step) x = stepped lo hi step x.
+Proof. exact get_bits_denotes. Qed.
+Print Assumptions C04_get_bits_denotes.
+
+(* Whatever list item getRange ACCEPTS for a field with bounds [min, max] denotes a stepped
+   range lo-hi/st with min <= lo <= hi <= max and st >= 1 (possibly with the star bit): values
+   outside the bounds, inverted ranges and zero steps are never given a meaning. *)
+Theorem C04_item_denotes_range : forall e r bits,
+  0 <= b_min r -> b_max r <= 62 -> get_range e r = Ok bits ->
+  exists lo hi st,
+    b_min r <= lo /\ lo <= hi /\ hi <= b_max r /\ 1 <= st /\
+    forall x, 0 <= x <= 62 -> tb bits x = stepped lo hi st x.
+Proof. exact item_denotes_range. Qed.
+Print Assumptions C04_item_denotes_range.
+
+(* Every schedule the parser returns for a field list (any option set, any TZ prefix) has its
+   six sets inside the documented ranges: second, minute 0-59; hour 0-23; day of month 1-31;
+   month 1-12; day of week 0-6. *)
+Theorem C04_parse_sets_in_bounds : forall v o ll pd spec sec mi hr dm mo dw loc,
+  prefixb (bs "@") (match strip_tz v ll spec with Ok (_, rest) => rest | _ => spec end) = false ->
+  parse v o ll pd spec = Ok (SpecSched sec mi hr dm mo dw loc) ->
+  set_within sec 0 59 /\ set_within mi 0 59 /\ set_within hr 0 23 /\
+  set_within dm 1 31 /\ set_within mo 1 12 /\ set_within dw 0 6.
+Proof. exact parse_sets_in_bounds. Qed.
+Print Assumptions C04_parse_sets_in_bounds.
+
+(* ---------------------------------------------------------------------------------------- *)
+(* the parser refuses malformed expressions (and never panics on the current tree)           *)
+
+(* Current tree: Parse never panics unless NewParser itself does (both optionals: documented). *)
+Theorem C04_parse_no_panic : forall o ll pd spec,
+  new_parser_panics o = false -> parse Fixed o ll pd spec <> Panic.
+Proof. exact parse_fixed_no_panic. Qed.
+Print Assumptions C04_parse_no_panic.
+
+(* Before the fix the only panic was the TZ=/CRON_TZ= prefix with no space in the spec. *)
+Theorem C04_parse_original_panic_iff : forall o ll pd spec,
+  parser_parse Original o ll pd spec = Panic <->
+  has_tz_prefix spec = true /\ go_index 32 spec = -1.
+Proof. exact parser_parse_original_panic_iff. Qed.
+Print Assumptions C04_parse_original_panic_iff.
+
+(* Wrong number of fields, for ANY option set: refused. *)
+Theorem C04_parse_rejects_field_count : forall v o ll pd spec loc rest,
+  new_parser_panics o = false -> spec <> [] ->
+  strip_tz v ll spec = Ok (loc, rest) -> prefixb (bs "@") rest = false ->
+  (len (go_fields rest) < min_fields o \/ max_fields o < len (go_fields rest)) ->
+  parse v o ll pd spec = Err EFieldCount.
+Proof. exact parse_rejects_field_count. Qed.
+Print Assumptions C04_parse_rejects_field_count.
+
+(* ... instantiated for the option sets the property names. *)
+Theorem C04_parse_rejects_count_standard : forall v ll pd spec,
+  spec <> [] -> has_tz_prefix spec = false -> prefixb (bs "@") spec = false ->
+  len (go_fields spec) <> 5 -> parse v opts_standard ll pd spec = Err EFieldCount.
+Proof. exact parse_rejects_count_standard. Qed.
+Print Assumptions C04_parse_rejects_count_standard.
+
+Theorem C04_parse_rejects_count_seconds : forall v ll pd spec,
+  spec <> [] -> has_tz_prefix spec = false -> prefixb (bs "@") spec = false ->
+  len (go_fields spec) <> 6 -> parse v opts_seconds ll pd spec = Err EFieldCount.
+Proof. exact parse_rejects_count_seconds. Qed.
+Print Assumptions C04_parse_rejects_count_seconds.
+
+Theorem C04_parse_rejects_count_seconds_optional : forall v ll pd spec,
+  spec <> [] -> has_tz_prefix spec = false -> prefixb (bs "@") spec = false ->
+  (len (go_fields spec) < 5 \/ 6 < len (go_fields spec)) ->
+  parse v opts_seconds_optional ll pd spec = Err EFieldCount.
+Proof. exact parse_rejects_count_seconds_optional. Qed.
+Print Assumptions C04_parse_rejects_count_seconds_optional.
+
+Theorem C04_parse_rejects_count_dow_optional : forall v ll pd spec,
+  spec <> [] -> has_tz_prefix spec = false -> prefixb (bs "@") spec = false ->
+  (len (go_fields spec) < 4 \/ 5 < len (go_fields spec)) ->
+  parse v opts_dow_optional ll pd spec = Err EFieldCount.
+Proof. exact parse_rejects_count_dow_optional. Qed.
+Print Assumptions C04_parse_rejects_count_dow_optional.
+
+(* Unknown descriptor; descriptor with the Descriptor option off; bad @every duration;
+   unknown time zone: refused. *)
+Theorem C04_parse_rejects_unknown_descriptor : forall v o ll pd spec,
+  new_parser_panics o = false -> has_tz_prefix spec = false ->
+  prefixb (bs "@") spec = true -> known_descriptor spec = false ->
+  prefixb (bs "@every ") spec = false -> exists e, parse v o ll pd spec = Err e.
+Proof. exact parse_rejects_unknown_descriptor. Qed.
+Print Assumptions C04_parse_rejects_unknown_descriptor.
+
+Theorem C04_parse_rejects_descriptor_when_off : forall v o ll pd spec,
+  new_parser_panics o = false -> has_tz_prefix spec = false ->
+  prefixb (bs "@") spec = true -> has o o_descriptor = false ->
+  parse v o ll pd spec = Err EDescriptorsOff.
+Proof. exact parse_rejects_descriptor_when_off. Qed.
+Print Assumptions C04_parse_rejects_descriptor_when_off.
+
+Theorem C04_parse_rejects_bad_duration : forall v o ll pd spec,
+  new_parser_panics o = false -> has_tz_prefix spec = false ->
+  prefixb (bs "@every ") spec = true -> pd (skipn 7 spec) = None ->
+  exists e, parse v o ll pd spec = Err e.
+Proof. exact parse_rejects_bad_duration. Qed.
+Print Assumptions C04_parse_rejects_bad_duration.
+
+Theorem C04_parse_rejects_unknown_zone : forall v o pd spec,
+  new_parser_panics o = false -> has_tz_prefix spec = true -> go_index 32 spec <> -1 ->
+  exists e, parse v o (fun _ => None) pd spec = Err e.
+Proof. exact parse_rejects_unknown_zone. Qed.
+Print Assumptions C04_parse_rejects_unknown_zone.
